@@ -298,14 +298,18 @@ def adc(img, gain, saturation_capacity=None, warn_saturate=False, dtype=None):
 
     # Enforce saturation capacity
     if saturation_capacity is not None:
+        # Work on a floating point copy: the caller's frame is left alone and the
+        # capacity is not cast to the dtype of the frame, neither for the warning
+        # nor for the limit itself
+        img = img.astype(float)
+        saturated = img > saturation_capacity
+
         if warn_saturate:
-            if np.any(img > saturation_capacity):
+            if np.any(saturated):
                 warnings.warn('Frame has saturated pixels.')
 
-        # Apply the saturation limit (on a floating point copy: the caller's frame is
-        # left alone and the capacity is not cast to the dtype of the frame)
-        img = img.astype(float)
-        img[img > saturation_capacity] = saturation_capacity
+        # Apply the saturation limit
+        img[saturated] = saturation_capacity
 
     # Determine the polynomial order
     gain = np.asarray(gain)
